@@ -4,6 +4,10 @@ import json
 props=[json.loads(l) for l in open('/verif/properties.jsonl')]
 # id -> (technique, level text, level note)
 CLAIMED={
+ 'C02':("exhaustive language enumeration (LANG): all token strings up to a length bound, all single-token corruptions, all spelling variants, against an independent recogniser/evaluator",
+        "every token string of length<=5/6 over a 32-token alphabet, every single-token corruption of every well-formed rendering, every whitespace/number/escape spelling, every \\uXXXX code unit and every Unicode scalar value",
+        "bounded token-string length; numbers limited to the spelling list (correct rounding checked against Rust std's parser)"),
+
  'C20':("exhaustive ascending depth sweep in crash-isolated worker processes (every depth up to a bound, then a fixed grid) plus exhaustive enumeration of extreme integer arguments",
         "every nesting depth 1..1024/4096 for 16 operations x 3 shapes x 2 pinned stack sizes in workers whose death is attributed to the announced case; grid to 300k; extreme i32 arguments (thorough: all 2^32) with overflow checks on",
         "between grid points above the exhaustive bound depths are not covered; results are mem::forget-ed so recursive Drop is outside the operation under test"),
